@@ -25,6 +25,11 @@ ASSUMPTIONS = ["blocks contain no Twp/Rge or section reference and no line break
 
 def check(rep, text, lay, groups):
     exp = gen.expected_tracts(groups)
+    if len(text) % 3 == 0:
+        # asking for the layout under a restricted candidate list (public API) before the text was ever parsed is a question,
+        # not a setting: the parse below must be unaffected
+        others = [x for x in gen.LAYOUTS if x != lay][:2]
+        pytrs.PLSSDesc(text, wait_to_parse=True).deduce_layout(candidates=others)
     d = pytrs.PLSSDesc(text)
     got = [(t.trs, t.desc) for t in d.tracts]
     why = None
